@@ -1,5 +1,5 @@
 (* Model of h3/src/qpack/prefix_string/mod.rs: string literals = prefixed length + raw or Huffman payload. *)
-From H3V Require Import Base.Bytes Model.PrefixInt Model.Huffman.
+From H3V Require Import Base.Bytes Gen.GenPrefixString Model.PrefixInt Model.Huffman.
 
 Inductive ps_err :=
 | PsUnexpectedEnd
@@ -7,22 +7,29 @@ Inductive ps_err :=
 | PsHuffman (e : huff_err)
 | PsBufSize.
 
-(* decode(size, buf): (value, remaining bytes of buf) *)
+(* the length guard of `decode`: saturating u64 operations applied in order to the length *)
+Definition sat64 (x : N) : N := N.min x (2 ^ 64 - 1).
+Definition ps_guard_value (n : N) : N :=
+  fold_left (fun (acc : N) (op : bool * N) => if fst op then sat64 (acc * snd op) else sat64 (acc + snd op))
+            ps_dec_guard_ops n.
+
+(* decode(size, buf): (value, remaining bytes of buf).  Constants, operators and the guard expression are
+   the generated Gen/GenPrefixString.v (the statement sequence itself is anchored by the translator). *)
 Definition ps_decode (size : N) (bs : bytes) : res ps_err (bytes * bytes) :=
-  if size =? 0 then Panic 30                                   (* size - 1 underflows u8 *)
+  if size <? ps_dec_size_offset then Panic 30                  (* size - 1 underflows u8 *)
   else
-    match pi_decode (size - 1) bs with
+    match pi_decode (size - ps_dec_size_offset) bs with
     | Panic s => Panic s
     | Err PiUnexpectedEnd => Err PsUnexpectedEnd               (* From<IntegerError> *)
     | Err e => Err (PsInteger e)
     | Ok (flags, n, r) =>
         (* len.try_into::<usize>() cannot fail on a 64-bit target *)
-        if len r <? n then Err PsUnexpectedEnd
+        if (if ps_dec_remaining_lt then len r <? n else len r <=? n) then Err PsUnexpectedEnd
         else
           let payload := firstn (N.to_nat n) r in
           let rest := skipn (N.to_nat n) r in
-          if N.land flags 1 =? 0 then Ok (payload, rest)
-          else if 2 ^ 32 - 1 <? N.min (N.min (n * 8) (2 ^ 64 - 1) + 8) (2 ^ 64 - 1) then Err PsBufSize
+          if N.land flags ps_dec_h_mask =? 0 then Ok (payload, rest)
+          else if 2 ^ ps_dec_guard_width - 1 <? ps_guard_value n then Err PsBufSize
                (* u32::try_from((len as u64).saturating_mul(8).saturating_add(8))?: the Huffman decoder
                   addresses bits with u32 positions and looks 8 bits ahead *)
           else
@@ -39,9 +46,10 @@ Definition ps_encode (size flags : N) (value : bytes) : res unit bytes :=
   | Panic s => Panic s
   | Err u => Err u
   | Ok encoded =>
-      if size =? 0 then Panic 31
+      if size <? ps_enc_size_offset then Panic 31
       else
-        match pi_encode (size - 1) (N.lor (N.shiftl flags 1 mod 256) 1) (len encoded) with
+        match pi_encode (size - ps_enc_size_offset)
+                        (N.lor (N.shiftl flags ps_enc_flag_shift mod 256) ps_enc_flag_or) (len encoded) with
         | Ok hd => Ok (hd ++ encoded)
         | Err u => Err u
         | Panic s => Panic s
